@@ -176,3 +176,72 @@ LETTER = [
 ]
 for _n, _src, _scr, _tier in LETTER:
     CELLS.append(tletter.letter_cell('T2', _n, _src, _scr, tier=_tier))
+
+
+# ---------------------------------------------------------------------------------------------------------------- P3
+# attribute assignment of PRIMITIVE fields (node.value = ..., node.id = ..., node.level = ...) on tight layouts where the new text touches
+# its neighbours: the source must still parse to the live tree
+ATTR_SRCS = {
+    'tight_ifexp': 'x = 1if a else b\ny = a if 1else b\nz = a if b else"s"\n',
+    'tight_misc': 'v = [a for a in"s"if 2or a]\nw = 1.5.real\nu = not"t"\n',
+    'imports': 'from.a import b\nfrom . import c as d\nimport e.f\n',
+    'names': 'def f(p, *q, r=1, **s): return p.t\nclass K(B, m=N): pass\nglobal g, h\n',
+}
+ATTR_VALUES = [True, None, 5, 0, 'str', 2.5, b'by', ..., 'a"b', False, 10 ** 20]
+
+
+def _mk_attr(key):
+    src = ATTR_SRCS[key]
+
+    def fn(k: int, vi: int):
+        assume(0 <= vi < len(ATTR_VALUES) + 3)
+        v_i = pc.pin(vi, 0, len(ATTR_VALUES) + 2)
+        with pc.untraced():
+            root = FST(src, 'exec')
+            pc.reset_globals()
+            pairs = []
+            for n in ast.walk(root.a):
+                for f_ in n._fields:
+                    val = getattr(n, f_, None)
+                    if isinstance(n, ast.Constant) and f_ in ('value', 'kind'):
+                        pairs.append((n, f_))
+                    elif isinstance(val, str) and f_ in ('id', 'attr', 'arg', 'name', 'asname', 'module'):
+                        pairs.append((n, f_))
+                    elif f_ in ('level',) or (f_ == 'asname' and val is None):
+                        pairs.append((n, f_))
+        assume(0 <= k < len(pairs))
+        node, field = pairs[pc.pin(k, 0, len(pairs) - 1)]
+        old = getattr(node, field)
+        if field == 'value':
+            assume(v_i < len(ATTR_VALUES))
+            new = ATTR_VALUES[v_i]
+        elif field == 'kind':
+            assume(v_i < 2 and isinstance(node.value, str))
+            new = [None, 'u'][v_i]
+        elif field == 'level':
+            assume(v_i < 3)
+            new = v_i
+            assume(not (new == 0 and node.module is None))
+        else:
+            assume(v_i < 2)
+            new = ['zz', 'é_1'][v_i]
+        sig = f'attr_assign.{key}.{type(node).__name__}.{field}'
+        try:
+            setattr(node.f, field, new)
+        except pc.EXPECTED_RAISES + (TypeError,):
+            with pc.untraced():
+                check(root.src == src, sig + '.failed_assignment_changed_source', (old, new, root.src))
+            cover('raise')
+            return
+        with pc.untraced():
+            pc.o_parse(root, sig + f'<-{new!r}')
+            pc.links_ok(root, sig)
+        cover('ok')
+    return fn
+
+
+for _k in ATTR_SRCS:
+    CELLS.append(Cell(f'P3.attr_assign[{_k}]', _mk_attr(_k), 'P', ['fst.fst_accessors', 'fst.fst_put_one._put_one', 'fst.fst_put_one._put_one_constant', 'fst.fst_put_one._put_one_identifier'],
+                      f'carrier {ATTR_SRCS[_k]!r}; attribute assignment node.<primitive field> = value for every (node, primitive field) pair (symbolic ordinal) and a symbolic choice among '
+                      f'{len(ATTR_VALUES)} constant values / 2 identifiers / levels 0..2 / kinds; the source must parse (CPython) to the live tree incl. positions',
+                      tier='quick', budget=600, per_path=60, out='values which have no literal form (inf, nan, negative and complex numbers)', reset=pc.reset_globals))
